@@ -15,7 +15,9 @@ date-time key, finding F24):
  * `T18_decode_sorted_of_insertion` — what the default build returns is the key-sorted placement of
    what the `preserve_order` build returns: nothing but order distinguishes them;
  * `T18_decode_perm` — the two results are equal up to permuting table entries at every depth, and
-   the default one is key-sorted at every depth. -/
+   the default one is key-sorted at every depth;
+ * `T18_decodeTable_parsed`, `T18_decodeTable_same_verdict` — the same for the target `toml::Table`
+   (`Map`'s own `Deserialize`): in either build it returns the entries of the value `toml::Value` gets. -/
 namespace TomlVerif.Props.C18Decode
 open TomlVerif TomlVerif.Model TomlVerif.Model.TomlValue TomlVerif.Model.DeRoutes
 open TomlVerif.Lemmas.DeTyped13 TomlVerif.Lemmas.RoundTrip17 TomlVerif.Lemmas.TypedGapsParsed
@@ -75,6 +77,37 @@ theorem T18_decode_perm (s : Bytes) (T : Tbl) (v w : TV) (hp : Doc.parseDocument
   injection hw with hw
   subst hv hw
   exact ⟨perm_placeTV _ hn, place_is_sorted _ hn, rfl⟩
+
+/-! ## `toml::from_str::<toml::Table>` -/
+
+/-- `toml::Table` as the target: both builds accept, and return the entries of the value `toml::Value` gets -/
+theorem T18_decodeTable_parsed (fl : Flavour) (s : Bytes) (T : Tbl) (hp : Doc.parseDocument s = some T)
+    (hk : NoPrivateKey (.table T)) :
+    (DeText.decodeTable fl s).map TV.tbl = DeText.decodeValue fl s := by
+  rw [T18_decode_parsed fl s T hp hk]
+  unfold DeText.decodeTable
+  rw [hp]
+  simp only []
+  rw [presOfTbl_eq]
+  obtain ⟨items, a, b, c⟩ := T
+  have hw := parsed_wfTV s _ hp hk
+  rw [plainTbl] at hw ⊢
+  rw [WfTV] at hw
+  rw [presEdit, visitTable, visitPairs_presEdit_wf fl false _ hw.1, placeTV]
+  rfl
+
+/-- same verdict for the `toml::Table` target in both builds -/
+theorem T18_decodeTable_same_verdict (s : Bytes)
+    (hk : ∀ T, Doc.parseDocument s = some T → NoPrivateKey (.table T)) :
+    (DeText.decodeTable .sorted s).isSome = (DeText.decodeTable .insertion s).isSome := by
+  cases hp : Doc.parseDocument s with
+  | none => unfold DeText.decodeTable; rw [hp]
+  | some T =>
+    have h1 := T18_decodeTable_parsed .sorted s T hp (hk T hp)
+    have h2 := T18_decodeTable_parsed .insertion s T hp (hk T hp)
+    rw [T18_decode_parsed _ s T hp (hk T hp)] at h1 h2
+    cases h3 : DeText.decodeTable .sorted s <;> cases h4 : DeText.decodeTable .insertion s <;>
+      simp_all
 
 /-- the root keys of a value, in iteration order -/
 def rootKeys : TV → List Bytes
